@@ -39,3 +39,29 @@ impl LockLatch {
         self.v.notify_all();
     }
 }
+
+/// Verification hook (compiled only with `--cfg jgilchrist_tcheran_verif`): sleeps at a named point
+/// of the UCI threads for the number of milliseconds given for that point in the environment
+/// variable `TCHERAN_VERIF_DELAYS` (`point=ms,point=ms`); does nothing when the variable is unset.
+/// A sleep only selects one of the schedules the unmodified program already has.
+#[cfg(jgilchrist_tcheran_verif)]
+pub fn verif_delay(point: &str) {
+    use std::sync::OnceLock;
+
+    static DELAYS: OnceLock<Vec<(String, u64)>> = OnceLock::new();
+
+    let delays = DELAYS.get_or_init(|| {
+        std::env::var("TCHERAN_VERIF_DELAYS")
+            .unwrap_or_default()
+            .split(',')
+            .filter_map(|kv| {
+                let (k, v) = kv.split_once('=')?;
+                Some((k.trim().to_string(), v.trim().parse().ok()?))
+            })
+            .collect()
+    });
+
+    if let Some((_, ms)) = delays.iter().find(|(k, _)| k == point) {
+        std::thread::sleep(std::time::Duration::from_millis(*ms));
+    }
+}
